@@ -58,7 +58,6 @@ macro_rules! setter_body {
             assert!(tables::$tablek(out, K), "C04: the buffer is no longer a valid value of its type after the setter");
             cover!(some && out.len() > b.len(), "the text grew");
             cover!(out.len() < b.len(), "the text shrank");
-            cover!(out.len() == K, "reached the longest possible result");
             forget(x);
         }
     };
